@@ -351,12 +351,18 @@ impl Database {
 
         drop(lookup);
         drop(file_manager_guard);
+        #[cfg(kahflane_turdb_verif)]
+        crate::verif_hooks::sched_point(401);
 
         if self.shared.group_commit_queue.is_enabled() {
             match self.shared.group_commit_queue.submit_and_wait(payload) {
                 Ok(_batch_id) => {
+                    #[cfg(kahflane_turdb_verif)]
+                    crate::verif_hooks::sched_point(402);
                     if let Some(pending_commits) = self.shared.group_commit_queue.take_pending() {
                         let result = self.execute_group_wal_flush(&pending_commits);
+                        #[cfg(kahflane_turdb_verif)]
+                        crate::verif_hooks::sched_point(403);
                         match &result {
                             Ok(()) => self
                                 .shared
